@@ -1,0 +1,299 @@
+//go:build verif
+
+package broadcaster
+
+// Contracts for govc (contract-based deductive verification; see /verif/DESIGN.md, property C11).
+// This file holds only comments and is compiled only with -tags verif.
+//
+// C11 kernel (what is proved, for all inputs and all interleavings of lock-respecting goroutines):
+//   ghost state, all protected by b.lock:  eventCh.pushed / eventCh.npush  the sequence of values Broadcast has put
+//   into this subscriber's buffer;  eventCh.sub  the subscriber channel the entry's forwarder serves;  Broadcaster.slot
+//   id -> index, the injectivity witness of [C11.inv.distinct] (ids in eventChs are pairwise distinct and < currentID).
+//   Broadcast  one critical section; visits every entry of eventChs in order exactly once ([C11.bcast.visit/all]); each
+//              visit is ONE blocking select over exactly {recv ev.closeEventCh, send ev.ch, recv b.closeCh}
+//              ([C11.bcast.select]), offering the argument itself ([C11.bcast.samevalue]); every subscriber's sequence
+//              is extended by at most this one value at its end, by exactly it iff the send case was chosen
+//              ([C11.bcast.once/value/prefix]); otherwise that forwarder has left or the broadcaster is closed
+//              ([C11.bcast.skipped]); nothing at all when closed was observed ([C11.bcast.closed]).
+//              Common order = order of the critical sections (mutual exclusion of b.lock: assumed, sync.spec).
+//   subscribe  fresh entry with id = old currentID, buffered channel, open exit channel, one forwarder bound to exactly
+//              these ([C11.fwd.bound] at the go statement), wg.Add before go; nothing when closed.
+//   forwarder  (subscribe$1) listens on {ctx.Done, closeCh, own buffer}; forwards exactly the value just received, on
+//              its own subscriber channel only, at most once, in receive order ([C11.fwd.samevalue/order/sends.own]);
+//              ends only after ctx.Done / closeCh ([C11.fwd.exit]); its deferred exit (subscribe$1$1) closes the exit
+//              channel exactly once BEFORE taking the lock ([C11.exit.closefirst]), removes exactly its own entry
+//              keeping the others in order ([C11.exit.removed/before/after/gone]), calls Done once, unlocked.
+//   Close      (repaired, 6ea0d01) the CAS winner closes closeCh, at most once ([C11.close.closes/once]), WITHOUT holding
+//              the lock ([C11.close.releases]: a Broadcast blocked in its select holds the lock and is released by
+//              closeCh); then passes through the lock once ([C11.close.barrier]: a Lock/Unlock
+//              pair after the signal and before Wait) so that a subscribe that read `closed` == false under the lock has
+//              done its wg.Add before Wait; Wait unlocked. `closed` is written only by that CAS(false,true)
+//              ([C11.closed.monotone]: monotone), read by Broadcast / subscribe under the lock
+//              ([C11.bcast.closed.underlock], [C11.sub.closed.underlock]); chdone[closeCh] ==> closed ([C11.close.closed]).
+//              [C11.close.pre] (closed == 0 ==> closeCh open) is the converse, an invariant of the object established by
+//              New ([C11.new]) and kept by Close, stated as a precondition as in events/queue.
+// Paper composition (not machine-checked): "exactly once to every subscriber that stays" = [C11.bcast.*] (one push per
+// entry per call) + channel FIFO (assume-text) + [C11.fwd.*]; "nothing after Close returns" = forwarders are the only
+// senders on subscriber channels ([C11.*.nosend], [C11.fwd.sends.own]), each ends after closeCh ([C11.fwd.listens/offers])
+// and reports to the WaitGroup ([C11.exit.done]) that Close waits for ([C11.close.joined]).
+
+//@ assume-text channels (Go spec): the values sent on one subscriber buffer (eventCh.ch, capacity 10) are received by its single receiver, the forwarder, exactly once each and in the order of the sends; this links the ghost sequence eventCh.pushed (sender side, [C11.bcast.*]) to the forwarder's ghost sequence recvd ([C11.fwd.*]) and is not modelled
+//@ assume-text channels: a receive (case) on eventCh.closeEventCh, Broadcaster.closeCh or ctx.Done() completes only once that channel is closed, because nobody sends on them (the only send cases of this package are on eventCh.ch in Broadcast and on the subscriber channel in the forwarder: [C11.bcast.select], [C11.fwd.sends.own], [C11.*.nosend]); stated as `at select assume (res0 >= 0 && !selsend ...) ==> chdone[selchan]` on the statement's own operands; chdone is the monotone ghost "closed" (never havocked: channels are not reopened)
+//@ assume-text sync.WaitGroup: Wait returns only after every goroutine registered by Add has called Done (not modelled; the contracts count Add before go [C11.sub.registered] and one Done per forwarder after its unlock [C11.exit.done])
+//@ assume-text Broadcaster.currentID does not wrap around (2^64 subscriptions): `at call Load#0 assume b.currentID < 18446744073709551615` in subscribe; without it [C11.inv.entries] (ids < currentID, hence unique) fails at the wrap
+//@ assume-text Broadcaster.closed (atomic.Bool) is not lock-protected (Close sets it without the lock); the engine treats it as stable within one call. The clauses do not rely on that beyond monotonicity: it is written only by Close's CompareAndSwap(false, true) ([C11.closed.monotone]), so a value true that was read stays true; clauses that speak about "not closed" refer to the value the function's own Load returned under the lock (ghost wasclosed)
+
+//@ ghost var chdone [int]bool
+
+//@ type eventCh
+//@   ghost npush int
+//@   ghost pushed [int]tp
+//@   ghost sub int
+
+//@ type Broadcaster
+//@   ghost slot [int]int
+//@   lock lock protects eventChs currentID slot eventCh.npush eventCh.pushed
+//@   lockinv lock [C11.inv.entries] forall i :: 0 <= i && i < len(self.eventChs) ==> (self.eventChs[i] != nil && allocated(self.eventChs[i]) && self.eventChs[i].id < self.currentID)
+//@   lockinv lock [C11.inv.distinct] forall i :: 0 <= i && i < len(self.eventChs) ==> self.slot[self.eventChs[i].id] == i
+
+//@ func (*Broadcaster).Broadcast
+//@   tags C11
+//@   requires b != nil
+//@   ghost nvis int
+//@   ghost sentto [int]bool
+//@   ghost snt bool
+//@   ghost wasclosed bool
+//@   ghost checked bool
+//@   at entry ghost nvis = 0
+//@   at entry ghost wasclosed = false
+//@   at entry ghost checked = false
+//@   at every call Load ghost checked = true
+//@   at every select assert [C11.bcast.closed.checked] checked && !wasclosed
+//@   at every before call Load assert [C11.bcast.closed.underlock] heldw(b.lock) && nvis == 0
+//@   at every call Load ghost wasclosed = res0
+//@   at every call Store assert [C11.closed.monotone] false
+//@   at every call CompareAndSwap assert [C11.closed.monotone] false
+//@   at call Lock#0 label L
+//@   at before call Unlock#0 label U
+//@   loop 0 invariant b == old(b) && heldw(b.lock) && -1 <= rangeindex && rangeindex < len(b.eventChs) && nvis == rangeindex + 1
+//@   loop 0 invariant b.eventChs == at(L, b.eventChs)
+//@   loop 0 invariant [C11.bcast.inv.done] forall j :: 0 <= j && j < nvis ==> (b.eventChs[j].npush == at(L, b.eventChs[j].npush) + (sentto[j] ? 1 : 0) && (sentto[j] ==> b.eventChs[j].pushed[at(L, b.eventChs[j].npush)] == value) && (!sentto[j] ==> (chdone[b.eventChs[j].closeEventCh] || chdone[b.closeCh])))
+//@   loop 0 invariant [C11.bcast.inv.prefix] forall j, k :: (0 <= j && j < len(b.eventChs) && k < at(L, b.eventChs[j].npush)) ==> b.eventChs[j].pushed[k] == at(L, b.eventChs[j].pushed[k])
+//@   loop 0 invariant [C11.bcast.inv.todo] forall j :: nvis <= j && j < len(b.eventChs) ==> b.eventChs[j].npush == at(L, b.eventChs[j].npush)
+//@   at every select assert [C11.bcast.select] selblocking && selcases == 3 && selhas(ev.closeEventCh) && selhassend(ev.ch) && selhas(b.closeCh)
+//@   at every select assert [C11.bcast.visit] ev == b.eventChs[nvis]
+//@   at every select assume (res0 >= 0 && !selsend) ==> chdone[selchan]
+//@   at every select ghost snt = (res0 >= 0 && selsend && selchan == ev.ch)
+//@   at every select ghost sentto = update(sentto, nvis, snt)
+//@   at every select assert [C11.bcast.samevalue] (res0 >= 0 && selsend) ==> selsendval == value
+//@   at every select ghost ev.pushed = snt ? update(ev.pushed, ev.npush, selsendval) : ev.pushed
+//@   at every select ghost ev.npush = ev.npush + (snt ? 1 : 0)
+//@   at every select ghost nvis = nvis + 1
+//@   at every before send assert [C11.bcast.nobaresend] false
+//@   at every before recv assert [C11.bcast.nobarerecv] false
+//@   ensures [C11.bcast.closed.checked] checked
+//@   ensures [C11.bcast.subs] at(U, b.eventChs) == at(L, b.eventChs)
+//@   ensures [C11.bcast.closed] wasclosed ==> (nvis == 0 && (forall j :: 0 <= j && j < at(L, len(b.eventChs)) ==> (at(U, b.eventChs[j].npush) == at(L, b.eventChs[j].npush) && at(U, b.eventChs[j].pushed) == at(L, b.eventChs[j].pushed))))
+//@   ensures [C11.bcast.all] !wasclosed ==> nvis == at(L, len(b.eventChs))
+//@   ensures [C11.bcast.once] !wasclosed ==> (forall j :: 0 <= j && j < at(L, len(b.eventChs)) ==> at(U, b.eventChs[j].npush) == at(L, b.eventChs[j].npush) + (sentto[j] ? 1 : 0))
+//@   ensures [C11.bcast.value] !wasclosed ==> (forall j :: (0 <= j && j < at(L, len(b.eventChs)) && sentto[j]) ==> at(U, b.eventChs[j].pushed[at(L, b.eventChs[j].npush)]) == value)
+//@   ensures [C11.bcast.prefix] forall j, k :: (0 <= j && j < at(L, len(b.eventChs)) && k < at(L, b.eventChs[j].npush)) ==> at(U, b.eventChs[j].pushed[k]) == at(L, b.eventChs[j].pushed[k])
+//@   ensures [C11.bcast.skipped] !wasclosed ==> (forall j :: (0 <= j && j < at(L, len(b.eventChs)) && !sentto[j]) ==> (chdone[at(L, b.eventChs[j].closeEventCh)] || chdone[b.closeCh]))
+
+//@ func New
+//@   tags C11
+//@   modifies nothing
+//@   ensures [C11.new] result != nil && fresh(result) && len(result.eventChs) == 0 && result.currentID == 0 && result.closed.v == 0 && !chdone[result.closeCh] && cap(result.closeCh) == 0
+//@   at store closeCh#0 ghost chdone = update(chdone, arg0, false)
+
+//@ func (*Broadcaster).Close
+//@   tags C11
+//@   requires b != nil
+//@   requires [C11.close.pre] b.closed.v == 0 ==> !chdone[b.closeCh]
+//@   ghost waited bool
+//@   ghost nclose int
+//@   ghost won bool
+//@   ghost signalled bool
+//@   ghost lockedafter bool
+//@   ghost passed bool
+//@   at entry ghost waited = false
+//@   at entry ghost nclose = 0
+//@   at entry ghost won = false
+//@   at entry ghost signalled = false
+//@   at entry ghost lockedafter = false
+//@   at entry ghost passed = false
+//@   at call Lock#0 label L
+//@   at before call Unlock#0 label U
+//@   at every call Store assert [C11.closed.monotone] false
+//@   at every before call CompareAndSwap assert [C11.closed.monotone] !arg1 && arg2
+//@   at every before call CompareAndSwap assert [C11.close.cas.once] !signalled
+//@   at every call CompareAndSwap ghost won = res0
+//@   at every call CompareAndSwap ghost signalled = !won
+//@   at every before close assert [C11.close.closes] arg0 == b.closeCh && !chdone[arg0] && won && nclose == 0
+//@   at every before close assert [C11.close.releases] !held(b.lock)
+//@   at every close ghost chdone = update(chdone, arg0, true)
+//@   at every close ghost nclose = nclose + 1
+//@   at every close ghost signalled = true
+//@   at every call Lock ghost lockedafter = (signalled && b.closed.v != 0 && (won ==> chdone[b.closeCh]))
+//@   at every call Unlock ghost passed = (passed || lockedafter)
+//@   at every call Unlock ghost lockedafter = false
+//@   at every before call Wait assert [C11.close.barrier] passed && !held(b.lock)
+//@   at every before call Wait assert [C11.close.wait.signalled] b.closed.v != 0 && (won ==> chdone[b.closeCh])
+//@   at every call Wait ghost waited = true
+//@   at every before send assert [C11.close.nosend] false
+//@   at every select assert [C11.close.noselect] false
+//@   at every before recv assert [C11.close.norecv] false
+//@   ensures [C11.close.closed] b.closed.v != 0 && (won ==> chdone[b.closeCh]) && (chdone[b.closeCh] ==> b.closed.v != 0)
+//@   ensures [C11.close.once] won == (old(b.closed.v) == 0) && nclose == (won ? 1 : 0)
+//@   ensures [C11.close.joined] waited && nolocks()
+//@   ensures [C11.close.subs] at(U, b.eventChs) == at(L, b.eventChs)
+
+//@ func (*Broadcaster).subscribe
+//@   tags C11
+//@   opt locks=caller
+//@   opt go=ignore
+//@   requires b != nil && heldw(b.lock) && ctx != nil
+//@   requires [C11.sub.inv.entries] forall i :: 0 <= i && i < len(b.eventChs) ==> (b.eventChs[i] != nil && allocated(b.eventChs[i]) && b.eventChs[i].id < b.currentID)
+//@   requires [C11.sub.inv.distinct] forall i :: 0 <= i && i < len(b.eventChs) ==> b.slot[b.eventChs[i].id] == i
+//@   modifies b.eventChs, b.currentID, b.slot, b.eventChs[0:cap(b.eventChs)]
+//@   ghost reg int
+//@   ghost spawned int
+//@   at entry ghost reg = 0
+//@   at entry ghost spawned = 0
+//@   ghost wasclosed bool
+//@   at entry ghost wasclosed = false
+//@   at every before call Load assert [C11.sub.closed.underlock] heldw(b.lock)
+//@   at every call Load ghost wasclosed = res0
+//@   at every call Store assert [C11.closed.monotone] false
+//@   at every call CompareAndSwap assert [C11.closed.monotone] false
+//@   at call Load#0 assume b.currentID < 18446744073709551615
+//@   at call Add#0 ghost reg = reg + arg1
+//@   at every before go assert [C11.sub.registered] reg == spawned + 1
+//@   at every go ghost spawned = spawned + 1
+//@   at store eventChs#0 ghost b.eventChs[len(b.eventChs) - 1].sub = ch
+//@   at store eventChs#0 ghost b.slot = update(b.slot, id, len(b.eventChs) - 1)
+//@   at store eventChs#0 ghost b.eventChs[len(b.eventChs) - 1].npush = 0
+//@   at store closeEventCh#0 ghost chdone = update(chdone, arg0, false)
+//@   at every before send assert [C11.sub.nosend] false
+//@   at every select assert [C11.sub.noselect] false
+//@   at every before recv assert [C11.sub.norecv] false
+//@   at every before close assert [C11.sub.noclose] false
+//@   ensures heldw(b.lock)
+//@   ensures [C11.sub.inv.entries] forall i :: 0 <= i && i < len(b.eventChs) ==> (b.eventChs[i] != nil && allocated(b.eventChs[i]) && b.eventChs[i].id < b.currentID)
+//@   ensures [C11.sub.inv.distinct] forall i :: 0 <= i && i < len(b.eventChs) ==> b.slot[b.eventChs[i].id] == i
+//@   ensures [C11.sub.closed] old(b.closed.v) != 0 ==> (b.eventChs == old(b.eventChs) && b.currentID == old(b.currentID) && b.slot == old(b.slot))
+//@   ensures [C11.sub.closed.nospawn] wasclosed ==> (spawned == 0 && reg == 0 && b.eventChs == old(b.eventChs) && b.currentID == old(b.currentID))
+//@   ensures [C11.sub.skipped] b.currentID == old(b.currentID) ==> b.closed.v != 0
+//@   ensures [C11.sub.effect] (b.eventChs == old(b.eventChs) && b.currentID == old(b.currentID) && b.slot == old(b.slot)) || (len(b.eventChs) == old(len(b.eventChs)) + 1 && b.currentID == old(b.currentID) + 1)
+//@   ensures [C11.sub.kept] len(b.eventChs) >= old(len(b.eventChs)) && (forall j :: 0 <= j && j < old(len(b.eventChs)) ==> b.eventChs[j] == old(b.eventChs[j]))
+//@   ensures [C11.sub.added] !wasclosed ==> (len(b.eventChs) == old(len(b.eventChs)) + 1 && b.currentID == old(b.currentID) + 1)
+//@   ensures [C11.sub.added.spawn] !wasclosed ==> (spawned == 1 && reg == 1)
+//@   ensures [C11.sub.entry] len(b.eventChs) == old(len(b.eventChs)) + 1 ==> (fresh(b.eventChs[len(b.eventChs) - 1]) && b.eventChs[len(b.eventChs) - 1].id == old(b.currentID) && b.eventChs[len(b.eventChs) - 1].sub == ch && b.eventChs[len(b.eventChs) - 1].npush == 0 && cap(b.eventChs[len(b.eventChs) - 1].ch) > 0 && !chdone[b.eventChs[len(b.eventChs) - 1].closeEventCh])
+
+//@ func (*Broadcaster).subscribe$1$1
+//@   tags C11
+//@   requires b != nil && !held(b.lock)
+//@   requires [C11.exit.once] !chdone[closeEventCh]
+//@   ghost pos int
+//@   ghost ndone int
+//@   ghost nclose int
+//@   at entry ghost pos = -1
+//@   at entry ghost ndone = 0
+//@   at entry ghost nclose = 0
+//@   at every before close assert [C11.exit.closes] arg0 == closeEventCh && !chdone[arg0] && !held(b.lock)
+//@   at every close ghost chdone = update(chdone, arg0, true)
+//@   at every close ghost nclose = nclose + 1
+//@   at every before call Lock assert [C11.exit.closefirst] chdone[closeEventCh] && nclose == 1
+//@   at call Lock#0 label L
+//@   at before call Unlock#0 label U
+//@   loop 0 invariant b == old(b) && heldw(b.lock) && pos == -1 && -1 <= rangeindex && rangeindex < len(b.eventChs) && b.eventChs == at(L, b.eventChs)
+//@   loop 0 invariant forall j :: 0 <= j && j <= rangeindex ==> b.eventChs[j].id != id
+//@   loop 0 invariant forall j :: 0 <= j && j < len(b.eventChs) ==> b.eventChs[j] == at(L, b.eventChs[j])
+//@   at store eventChs#0 ghost pos = i
+//@   at store eventChs#0 ghost b.slot = (lambda k :: (b.slot[k] > pos ? b.slot[k] - 1 : b.slot[k]))
+//@   at every before call Done assert [C11.exit.done.unlocked] !held(b.lock) && pos >= -1
+//@   at every call Done ghost ndone = ndone + 1
+//@   at every before send assert [C11.exit.nosend] false
+//@   at every select assert [C11.exit.noselect] false
+//@   at every before recv assert [C11.exit.norecv] false
+//@   ensures [C11.exit.closed] chdone[closeEventCh]
+//@   ensures [C11.exit.closed.once] nclose == 1
+//@   ensures [C11.exit.done] ndone == 1 && nolocks()
+//@   ensures [C11.exit.absent] pos == -1 ==> ((forall j :: 0 <= j && j < at(L, len(b.eventChs)) ==> at(L, b.eventChs[j].id) != id) && at(U, b.eventChs) == at(L, b.eventChs))
+//@   ensures [C11.exit.removed] pos >= 0 ==> (pos < at(L, len(b.eventChs)) && at(L, b.eventChs[pos].id) == id && at(U, len(b.eventChs)) == at(L, len(b.eventChs)) - 1)
+//@   ensures [C11.exit.before] pos >= 0 ==> (forall j :: 0 <= j && j < pos ==> at(U, b.eventChs[j]) == at(L, b.eventChs[j]))
+//@   ensures [C11.exit.after] pos >= 0 ==> (forall j :: pos <= j && j < at(U, len(b.eventChs)) ==> at(U, b.eventChs[j]) == at(L, b.eventChs[j + 1]))
+//@   ensures [C11.exit.others] pos >= 0 ==> (forall j :: (0 <= j && j < at(L, len(b.eventChs)) && j != pos) ==> at(L, b.eventChs[j].id) != id)
+//@   ensures [C11.exit.gone] forall j :: 0 <= j && j < at(U, len(b.eventChs)) ==> at(U, b.eventChs[j].id) != id
+
+//@ func (*Broadcaster).subscribe$1
+//@   tags C11
+//@   opt go=detached
+//@   requires b != nil && ctx != nil
+//@   requires [C11.fwd.bound] len(b.eventChs) > 0 && b.eventChs[len(b.eventChs) - 1].id == id && b.eventChs[len(b.eventChs) - 1].ch == bufferedCh && b.eventChs[len(b.eventChs) - 1].closeEventCh == closeEventCh && b.eventChs[len(b.eventChs) - 1].sub == ch
+//@   requires [C11.fwd.open] !chdone[closeEventCh]
+//@   ghost nrecv int
+//@   ghost recvd [int]tp
+//@   ghost nfwd int
+//@   ghost fwd [int]tp
+//@   ghost nsends int
+//@   ghost stopseen bool
+//@   ghost got bool
+//@   ghost nexit int
+//@   at entry ghost nrecv = 0
+//@   at entry ghost nfwd = 0
+//@   at entry ghost nsends = 0
+//@   at every select ghost nsends = nsends + ((res0 >= 0 && selsend) ? 1 : 0)
+//@   at every select assert [C11.fwd.sends.own] forall c :: selhassend(c) ==> c == ch
+//@   at entry ghost stopseen = false
+//@   at entry ghost nexit = 0
+//@   loop 0 invariant b == old(b) && ctx == old(ctx) && ch == old(ch) && bufferedCh == old(bufferedCh) && closeEventCh == old(closeEventCh) && id == old(id)
+//@   loop 0 invariant nolocks() && !chdone[closeEventCh] && nexit == 0 && !stopseen
+//@   loop 0 invariant [C11.fwd.inv] nsends == nfwd && nfwd == nrecv && (forall k :: 0 <= k && k < nfwd ==> fwd[k] == recvd[k])
+//@   at select#0 assert [C11.fwd.listens] selblocking && selcases == 3 && selhas(ctx.donech) && selhas(b.closeCh) && selhas(bufferedCh) && (forall c :: !selhassend(c))
+//@   at select#0 assume (res0 >= 0 && !selsend && (selchan == ctx.donech || selchan == b.closeCh)) ==> chdone[selchan]
+//@   at select#0 ghost stopseen = (res0 >= 0 && !selsend && (selchan == ctx.donech || selchan == b.closeCh))
+//@   at select#0 ghost got = (res0 >= 0 && !selsend && selchan == bufferedCh)
+//@   at select#1 assert [C11.fwd.received] got
+//@   at select#1 ghost recvd = update(recvd, nrecv, val)
+//@   at select#1 ghost nrecv = nrecv + 1
+//@   at select#1 assert [C11.fwd.offers] selblocking && selcases == 3 && selhas(ctx.donech) && selhas(b.closeCh) && selhassend(ch) && (forall c :: selhassend(c) ==> c == ch)
+//@   at select#1 assert [C11.fwd.samevalue] (res0 >= 0 && selsend) ==> (nrecv == nfwd + 1 && selsendval == recvd[nrecv - 1])
+//@   at select#1 assume (res0 >= 0 && !selsend) ==> chdone[selchan]
+//@   at select#1 ghost stopseen = (res0 >= 0 && !selsend && (selchan == ctx.donech || selchan == b.closeCh))
+//@   at select#1 ghost fwd = (res0 >= 0 && selsend) ? update(fwd, nfwd, selsendval) : fwd
+//@   at select#1 ghost nfwd = nfwd + ((res0 >= 0 && selsend) ? 1 : 0)
+//@   at every before send assert [C11.fwd.nobaresend] false
+//@   at every before recv assert [C11.fwd.nobarerecv] false
+//@   at every before close assert [C11.fwd.noclose] false
+//@   at every before call subscribe$1$1 assert [C11.fwd.exit] stopseen && (chdone[ctx.donech] || chdone[b.closeCh])
+//@   at every call subscribe$1$1 ghost nexit = nexit + 1
+//@   ensures [C11.fwd.exits] nexit == 1 && chdone[closeEventCh] && nolocks()
+//@   ensures [C11.fwd.order] nsends == nfwd && nfwd <= nrecv && nrecv <= nfwd + 1 && (forall k :: 0 <= k && k < nfwd ==> fwd[k] == recvd[k])
+
+//@ func (*Broadcaster).Subscribe
+//@   tags C11
+//@   requires b != nil && ctx != nil
+//@   ghost ncalls int
+//@   at entry ghost ncalls = 0
+//@   at call Lock#0 label L
+//@   at before call Unlock#0 label U
+//@   loop 0 invariant b == old(b) && ctx == old(ctx) && ch == old(ch) && heldw(b.lock) && -1 <= rangeindex && rangeindex < len(ch) && ncalls == rangeindex + 1
+//@   loop 0 invariant [C11.subscribe.inv.entries] forall i :: 0 <= i && i < len(b.eventChs) ==> (b.eventChs[i] != nil && allocated(b.eventChs[i]) && b.eventChs[i].id < b.currentID)
+//@   loop 0 invariant [C11.subscribe.inv.distinct] forall i :: 0 <= i && i < len(b.eventChs) ==> b.slot[b.eventChs[i].id] == i
+//@   loop 0 invariant [C11.subscribe.inv.len] len(b.eventChs) <= at(L, len(b.eventChs)) + ncalls && at(L, len(b.eventChs)) <= len(b.eventChs) && (len(b.eventChs) == at(L, len(b.eventChs)) + ncalls || b.closed.v != 0)
+//@   loop 0 invariant [C11.subscribe.inv.closed] old(b.closed.v) != 0 ==> (b.closed.v != 0 && len(b.eventChs) == at(L, len(b.eventChs)))
+//@   loop 0 invariant [C11.subscribe.inv.kept] forall j :: 0 <= j && j < at(L, len(b.eventChs)) ==> b.eventChs[j] == at(L, b.eventChs[j])
+//@   loop 0 invariant [C11.subscribe.inv.new] forall j :: at(L, len(b.eventChs)) <= j && j < len(b.eventChs) ==> (b.eventChs[j].sub == ch[j - at(L, len(b.eventChs))] && b.eventChs[j].npush == 0)
+//@   at every before call subscribe assert [C11.subscribe.each] arg1 == ctx && arg2 == ch[ncalls]
+//@   at every call subscribe ghost ncalls = ncalls + 1
+//@   at every before send assert [C11.subscribe.nosend] false
+//@   at every select assert [C11.subscribe.noselect] false
+//@   at every before recv assert [C11.subscribe.norecv] false
+//@   at every before close assert [C11.subscribe.noclose] false
+//@   ensures [C11.subscribe.all] ncalls == len(ch) && nolocks()
+//@   ensures [C11.subscribe.closed] old(b.closed.v) != 0 ==> (at(U, len(b.eventChs)) == at(L, len(b.eventChs)))
+//@   ensures [C11.subscribe.kept] forall j :: 0 <= j && j < at(L, len(b.eventChs)) ==> at(U, b.eventChs[j]) == at(L, b.eventChs[j])
+//@   ensures [C11.subscribe.added] at(U, len(b.eventChs)) == at(L, len(b.eventChs)) + len(ch) || b.closed.v != 0
+//@   ensures [C11.subscribe.atmost] at(L, len(b.eventChs)) <= at(U, len(b.eventChs)) && at(U, len(b.eventChs)) <= at(L, len(b.eventChs)) + len(ch)
+//@   ensures [C11.subscribe.order] forall j :: at(L, len(b.eventChs)) <= j && j < at(U, len(b.eventChs)) ==> (at(U, b.eventChs[j].sub) == ch[j - at(L, len(b.eventChs))] && at(U, b.eventChs[j].npush) == 0)
